@@ -27,6 +27,12 @@ OPEN = [
      'transOpers raise AttributeError - foreign exceptions escape compile(); not repaired: seven sibling actions '
      '(Entry, Index, Object, Notification, VarType, MandatoryGroup, ComplianceGroup) need a semantic decision',
      'compile() of `e OBJECT-TYPE ... AUGMENTS { ifEntry(1) } ::= { root 1 }` raises KeyError("ifEntry")'),
+    ('C05', 'C05.R8', 'genDefVal/return-shape outDict',
+     'F23: a BITS DEFVAL is returned as the bare record, not wrapped in {"default": ...}; the pysnmp template then '
+     'fails (attribute default missing) and its bits branch reads a path that cannot exist; not repaired: needs '
+     'a redesign of the bits default in both the IR and the template',
+     'OBJECT-TYPE SYNTAX BITS { a(0), b(1) } DEFVAL { { a, b } }: JSON default record has keys basetype/format/value '
+     'at top level; PySnmpCodeGen raises PySmiCodegenError (Jinja: no attribute default)'),
 ]
 
 # (property, commit, what failed, rule that reports it on the pre-fix tree)
